@@ -1,11 +1,14 @@
 package harness
 
 import (
+	"context"
+	"crypto/sha256"
 	"fmt"
 	"os"
 	"path/filepath"
 	"sort"
 	"strings"
+	"sync"
 	"testing"
 	"time"
 
@@ -422,3 +425,170 @@ func FuzzC09(f *testing.F) {
 		}
 	})
 }
+
+// ---- C09 through files, read again and again: "configurations are re-read while it runs" ----
+//
+// C09ReloadCase: 1-4 generated contents are the .toml files of a per-process hidi-config tree; everything is loaded with
+// config.LoadDeviceConfigs, then loaded again 1-3 times as after change notifications - with nothing changed, or with one of
+// the files rewritten in between (another generated content, or the same bytes). Oracle: no load panics or hangs, and what
+// a load reports (error or not, the number of configurations per directory class) is the same for the same bytes on disk:
+// the n-th read of a file is as total as the first.
+type C09ReloadCase struct {
+	Files   []C09Case `json:"files"`
+	Dirs    []int     `json:"dirs"`              // index into c12Dirs per file
+	Reloads int       `json:"reloads"`           // further loads after the first
+	Rewrite []int     `json:"rewrite,omitempty"` // before reload k (index k): file to rewrite, -1 none
+	With    []C09Case `json:"with,omitempty"`    // content for that rewrite (nil Data and empty Text: the same bytes again)
+}
+
+var c09ReloadRoot string
+
+func c09Bytes(c C09Case) []byte {
+	if c.Data != nil {
+		return c.Data
+	}
+	return []byte(c.Text)
+}
+
+func checkC09Reload(c C09ReloadCase) (bool, *Violation) {
+	if len(c.Files) == 0 || len(c.Dirs) != len(c.Files) { // (corpus cases of the other C09 parts land here with an empty case)
+		return false, nil
+	}
+	if c09ReloadRoot == "" {
+		root, err := os.MkdirTemp(".", "c09reload-")
+		if err != nil {
+			return false, violation("C09", "harness", "", "mkdtemp: %v", err)
+		}
+		c09ReloadRoot, _ = filepath.Abs(root)
+		for _, dir := range c12Dirs {
+			if err := os.MkdirAll(filepath.Join(c09ReloadRoot, dir), 0o755); err != nil {
+				return false, violation("C09", "harness", "", "mkdir: %v", err)
+			}
+		}
+	}
+	paths := make([]string, len(c.Files))
+	content := make([][]byte, len(c.Files))
+	for i := range c.Files {
+		paths[i] = filepath.Join(c09ReloadRoot, c12Dirs[c.Dirs[i]%len(c12Dirs)], fmt.Sprintf("file%d.toml", i))
+		content[i] = c09Bytes(c.Files[i])
+	}
+	defer func() {
+		for _, p := range paths {
+			os.Remove(p)
+		}
+	}()
+	type outcome struct {
+		err string
+		n   int
+	}
+	load := func() (outcome, *Violation) {
+		type res struct {
+			o outcome
+			v *Violation
+		}
+		done := make(chan res, 1)
+		go func() {
+			var o outcome
+			v := guard("C09", "reload-panic", func() *Violation {
+				var wg sync.WaitGroup
+				cfgs, err := config.LoadDeviceConfigs(context.Background(), &wg)
+				if err != nil {
+					o.err = "error"
+				}
+				o.n = len(cfgs.Factory.Keyboards) + len(cfgs.Factory.Gamepads) + len(cfgs.User.Keyboards) + len(cfgs.User.Gamepads)
+				return nil
+			})
+			done <- res{o, v}
+		}()
+		select {
+		case r := <-done:
+			return r.o, r.v
+		case <-time.After(c09Watchdog):
+			return outcome{}, violation("C09", "reload-hang", "", "LoadDeviceConfigs did not return within %v", c09Watchdog)
+		}
+	}
+	describe := func() string {
+		var sb strings.Builder
+		for i := range paths {
+			fmt.Fprintf(&sb, "  %s (%d bytes): %q\n", strings.TrimPrefix(paths[i], c09ReloadRoot+"/"), len(content[i]), clip(string(content[i]), 300))
+		}
+		return sb.String()
+	}
+	var v *Violation
+	nontrivial := false
+	herr := inDir(c09ReloadRoot, func() {
+		for i := range paths {
+			if err := os.WriteFile(paths[i], content[i], 0o644); err != nil {
+				v = violation("C09", "harness", "", "write: %v", err)
+				return
+			}
+		}
+		seen := map[string]outcome{}
+		key := func() string {
+			h := sha256.New()
+			for i := range content {
+				fmt.Fprintf(h, "%d:%d:", c.Dirs[i]%len(c12Dirs), len(content[i]))
+				h.Write(content[i])
+			}
+			return string(h.Sum(nil))
+		}
+		for k := 0; k <= c.Reloads; k++ {
+			if k > 0 && k-1 < len(c.Rewrite) && c.Rewrite[k-1] >= 0 {
+				i := c.Rewrite[k-1] % len(paths)
+				if k-1 < len(c.With) {
+					if b := c09Bytes(c.With[k-1]); len(b) > 0 {
+						content[i] = b
+					}
+				}
+				if err := os.WriteFile(paths[i], content[i], 0o644); err != nil {
+					v = violation("C09", "harness", "", "write: %v", err)
+					return
+				}
+			}
+			o, lv := load()
+			if lv != nil {
+				lv.Message = fmt.Sprintf("load %d of the same process (%d earlier loads went through): %s\nfiles at that moment:\n%s", k+1, k, lv.Message, describe())
+				v = lv
+				return
+			}
+			if prev, ok := seen[key()]; ok {
+				nontrivial = true
+				if prev != o {
+					v = violation("C09", "reload-differs", "", "load %d reports %+v, an earlier load of exactly the same bytes reported %+v\nfiles:\n%s", k+1, o, prev, describe())
+					return
+				}
+			}
+			seen[key()] = o
+		}
+	})
+	if herr != nil {
+		return false, violation("C09", "harness", "", "chdir: %v", herr)
+	}
+	classifyIf(nontrivial, "the same bytes loaded more than once")
+	return nontrivial, v
+}
+
+func genC09Reload(t *rapid.T) C09ReloadCase {
+	n := rapid.IntRange(1, 4).Draw(t, "files")
+	c := C09ReloadCase{Reloads: rapid.IntRange(1, 3).Draw(t, "reloads")}
+	for i := 0; i < n; i++ {
+		c.Files = append(c.Files, genC09(t))
+		c.Dirs = append(c.Dirs, rapid.IntRange(0, len(c12Dirs)-1).Draw(t, "dir"))
+	}
+	for k := 0; k < c.Reloads; k++ {
+		switch rapid.IntRange(0, 3).Draw(t, "rewrite") {
+		case 0: // another content
+			c.Rewrite = append(c.Rewrite, rapid.IntRange(0, n-1).Draw(t, "rewriteFile"))
+			c.With = append(c.With, genC09(t))
+		case 1: // saved again with the same bytes
+			c.Rewrite = append(c.Rewrite, rapid.IntRange(0, n-1).Draw(t, "rewriteFile"))
+			c.With = append(c.With, C09Case{})
+		default:
+			c.Rewrite = append(c.Rewrite, -1)
+			c.With = append(c.With, C09Case{})
+		}
+	}
+	return c
+}
+
+func TestC09Reload(t *testing.T) { ReplayOrRapid(t, NewRun(t, "C09"), checkC09Reload, genC09Reload) }
